@@ -376,11 +376,11 @@ func (e *encoderState) WriteToken(t Token) error {
 			break
 		}
 		if e.Tokens.Last.NeedObjectName() {
+			if !e.Tokens.Last.isValidNamespace() {
+				err = errInvalidNamespace
+				break
+			}
 			if !e.Flags.Get(jsonflags.AllowDuplicateNames) {
-				if !e.Tokens.Last.isValidNamespace() {
-					err = errInvalidNamespace
-					break
-				}
 				if e.Tokens.Last.isActiveNamespace() && !e.Namespaces.Last().insertQuoted(b[pos:], false) {
 					err = wrapWithObjectName(ErrDuplicateName, b[pos:])
 					break
@@ -489,10 +489,10 @@ func (e *encoderState) AppendRaw(k Kind, safeASCII bool, appendFn func([]byte) (
 
 		// Update the state machine.
 		if e.Tokens.Last.NeedObjectName() {
+			if !e.Tokens.Last.isValidNamespace() {
+				return wrapSyntacticError(e, errInvalidNamespace, pos, +1)
+			}
 			if !e.Flags.Get(jsonflags.AllowDuplicateNames) {
-				if !e.Tokens.Last.isValidNamespace() {
-					return wrapSyntacticError(e, errInvalidNamespace, pos, +1)
-				}
 				if e.Tokens.Last.isActiveNamespace() && !e.Namespaces.Last().insertQuoted(b[pos:], isVerbatim) {
 					err = wrapWithObjectName(ErrDuplicateName, b[pos:])
 					return wrapSyntacticError(e, err, pos, +1)
@@ -570,11 +570,11 @@ func (e *encoderState) WriteValue(v Value) error {
 		err = e.Tokens.appendLiteral()
 	case '"':
 		if e.Tokens.Last.NeedObjectName() {
+			if !e.Tokens.Last.isValidNamespace() {
+				err = errInvalidNamespace
+				break
+			}
 			if !e.Flags.Get(jsonflags.AllowDuplicateNames) {
-				if !e.Tokens.Last.isValidNamespace() {
-					err = errInvalidNamespace
-					break
-				}
 				if e.Tokens.Last.isActiveNamespace() && !e.Namespaces.Last().insertQuoted(b[pos:], false) {
 					err = wrapWithObjectName(ErrDuplicateName, b[pos:])
 					break
